@@ -12,6 +12,7 @@ tree within the limits. The same for rules, and for signers in the binary format
 import NeoModel.Proofs.WitnessItems
 import NeoModel.Proofs.WitnessJson
 import NeoModel.Proofs.WitnessEncode
+import NeoModel.Proofs.WitnessSignerItem
 import NeoModel.Generated.WitnessConsts
 namespace NeoModel.Witness
 
@@ -50,6 +51,25 @@ example : condFromItem (fun _ => none) 3 (.array [.int 2, .array []]) = none := 
 example : condFromItem (fun _ => none) 3
     (.array [.int 1, .array [.int 1, .array [.int 1, .array [.int 0, .bool true]]]]) = none := by decide   -- depth 4
 example : condFromItem (fun _ => none) 3 (.array [.int 0x18, .int 5]) = none := by decide          -- 1 byte is no hash
+
+/-- C15-dec-si-4. Signers as stack items: `Signer.FromStackItem` accepts, for any item, only a scope byte
+(any value — unlike `DecodeBinary` it does not validate it), at most 16 contracts / groups / rules and
+well-formed rules; and it inverts `ToStackItem` on every such signer with 20-byte hashes. -/
+theorem stackitem_signer_roundtrip (dk : Bytes → Option Key) (ek : Key → Bytes) (hk : ∀ k, dk (ek k) = some k) :
+    (∀ it s, signerFromItem dk it = some s →
+      s.scopes ≤ 255 ∧ s.allowedContracts.length ≤ maxSubitems ∧ s.allowedGroups.length ≤ maxSubitems ∧
+      s.rules.length ≤ maxSubitems ∧ ∀ r ∈ s.rules, r.wellFormed) ∧
+    (∀ s : Signer, s.scopes ≤ 255 → s.hashesOk → s.allowedContracts.length ≤ maxSubitems →
+      s.allowedGroups.length ≤ maxSubitems → s.rules.length ≤ maxSubitems → (∀ r ∈ s.rules, r.wellFormed) →
+      signerFromItem dk (signerToItem ek s) = some s) :=
+  ⟨signerFromItem_spec dk, signerFromItem_toItem dk ek hk⟩
+
+-- the scope byte is not validated on this path: Global together with CalledByEntry is accepted (the wire
+-- decoder refuses it, `signer_decoder_wellformed`), 0x100 is not a byte
+example : (signerFromItem (fun _ => none) (.array [.bytes (beBytes 20 0xA1), .int 0x81, .array [], .array [], .array []])).map
+    (·.scopes) = some 0x81 := by rfl
+example : signerFromItem (fun _ => none) (.array [.bytes (beBytes 20 0xA1), .int 0x100, .array [], .array [], .array []])
+    = none := by rfl
 
 /-! ### JSON (UnmarshalConditionJSON, WitnessRule.UnmarshalJSON) on JSON values -/
 
